@@ -156,7 +156,7 @@ def select_case(srcs, preload, extra_after=(), nw=2, name="sel", maxtick=0):
     scripts[0] = main
     # remove unused helper scripts' references is unnecessary: unused scripts are simply never spawned
     return meta(scenario(name, scripts, nw=nw, maxtick=maxtick, maxpid=1 + len(need) + 1),
-                False, False, ["C05", "C04"])
+                False, False, ["C05", "C04", "C16"])
 
 
 def select_cases(nw=2):
